@@ -46,7 +46,7 @@ DEFS = [
     ('literal::L1', '', range(0, 3), (0, 1), ['a?', 'a.?', 'a.b?', 'a.b*?', '[?', '[x?', '\\?', '$?', 'a|?', '+?', 'a??', '?0', 'ab?'], (0,)),
     ('literal::L2', '', range(0, 3), (0,), ['é?', 'é|?', 'é|€?', '.?', 'é??', '\\?'], (0,)),
     ('literal::I1', 'zZ', range(0, 2), (0,), ['a?', 'A?', 'k?', 'K?', 'x?', 'X?', 'kß?', 'K?\u1e9e'[:2], 'z?', 'Za?', 'a.?', 'q?', '\u212a?', 'k??', 'ks?', 'k\u017f?', '\u212as?', '\u212a\u017f?', 'K\u1e9e?', '\u212a\u00df?'], (0,)),
-    ('literal::I2', '', range(0, 4), (0, 1), ['k?', 'K?', 'a?', 'y?', 'Z?', 'ab?'], (0,)),
+    ('literal::I2', '', range(0, 4), (0, 1), ['k?', 'K?', 'a?', 'y?', 'Z?', 'ab?', '\t?', '\td?', '\tD?', '\x00?', '\x9d?', '\x9dE?', '\x0f?'], (0,)),
     ('twins::P1', '', range(0, 2), (0,), ['1?', '12?', '1x?', 'a?', 'bc?', 'b?', 'y1?', 'y12?', 'q?', 'Q?', 'w?', 'w€?', 'we?', 'ad?', '??'], (0,)),
     ('twins::P2', '', range(0, 3), (0,), ['x?', 'a?', 'ab?', 'abc?', 'b!?', '??', 'y?', 'y\u00e9?', 'z?', 'z\u00e9?', 'zb?'], (0,)),
     ('twins::O1', 'sS', range(0, 2), (0,), ['a?', 'ab?', 'A?', 'Ab?', 'd?', 'dxe?', 'dxex?', 's?', 'sSa?', 'abc?', 'D?e'], (0,)),
@@ -54,6 +54,7 @@ DEFS = [
     ('twins::O3', '_', range(0, 3), (0,), ['h?', '_h?', 'h\u00e9?'], (0,)),
     ('twins::Q1', ' ', range(0, 4), (0,), ['.?', '..?', '...?', ' ?', '. ?', '.. .?'], (0,)),
     ('twins::Q2', '', range(0, 3), (0,), ['1?', '12?', '1a?', '1 ?', 'x?', 'ax?', '7', '12', 'x', 'ab x', '1_?', '12 ?3', '?'], (0, 3)),
+    ('twins::Q4', '', range(0, 3), (0, 1), ['.?', 'a.?', '.', 'a.', ';?', ';\n?', ';\n', 'a. ?', '?'], (0, 1)),
     ('twins::Q3', '#abcdefghijklmnopqrstuvwxyz', range(0, 3), (0,), ['#?', '#a?', 'x#a?', 'a ?', '#ab ?', '?'], (0,)),
     ('utf8::E2', '', range(0, 4), (0,), ['a?', 'a€?', 'a??', '€?', '😀?', '???', '????', '\U00010000?', '\U00040000?', '\U00010000a?', 'a\U0010ffff?', '\u20ada?'], (0,)),
 ]
@@ -139,6 +140,7 @@ PART = [  # (T, contexts, start)  -- every split point k < N
     ('twins::Q1', ['.?', '..?', '...?', ' .?', '. ?', '??', '???', '.. ?'], 0),
     ('twins::Q2', ['1?', '10?', '10p?', '7 ?', 'w 10?', '1??', 'x?', 'ax?'], 0),
     ('twins::Q3', ['#?', '#a?', '#ab?', 'x#a?', 'a #b?', '#a b?'], 0),
+    ('twins::Q4', ['.?', 'a.?', ';?', ';\n?'], 0),
     ('basic::B1', ['i?', 'if?', 'ifx?', '1?', '1.?', '1.5?', '??', 'a1?'], 0),
     ('basic::B2', ['a?', 'ab?', 'abc?', 'aa?', '??', '???'], 0),
     ('basic::E1', ['ab?', 'abc?', 'abcd?', 'x1?', 'x?y'], 0),
